@@ -2,7 +2,7 @@ SPEC = dict(
     props_file="Props/C40.v",
     level="proof",
     observers=[dict(cmd="obs_om", imports=["Model.Om"], case_type="Om.case", check="Om.check_case",
-                    n={"quick": 700, "thorough": 20000}, shard=60)],
+                    n={"quick": 700, "thorough": 8000}, shard=60)],
     rule="histories on one entity key of om.NewHashRepository (all supported field kinds, verless and exat variants) and "
          "om.NewJSONRepository against the fake server running the real save scripts under mini-Lua: saves, 2-5 concurrent "
          "savers carrying the same version (separate clients; order taken from the server's script log), Fetch / FetchCache, "
